@@ -35,7 +35,7 @@ def gen_ir(r):
     renames = {}
     for n in list(ir["params"]):
         if r.random() < 0.07:
-            renames[n] = r.choice(["extra_args", "model_args", "n_args", "args_list", "my_kwargs_like", "type_", "self_weight", "_seed", "_private_x", "__mangled"])
+            renames[n] = r.choice(["extra_args", "model_args", "n_args", "args_list", "my_kwargs_like", "type_", "self_weight", "_seed", "_private_x", "__mangled", "größe", "données_2", "λ"])
     if renames:
         from collections import OrderedDict as _OD
 
